@@ -159,6 +159,28 @@ CHECKS = {
                   "(target_temp 0 = omitted; enum members truthy).",
              tech="Lean 4 proof (interaction-tree invariants, frame reflection) + fault-injection correspondence + Spec judge",
              ref="§7 C16"),
+ "C17": dict(text="PARTIAL. Lean theorems about the bridge's life-cycle state machine (start: bind the configured ports in order, roll back "
+                  "and raise on the first failure; stop: close everything; async context = start/stop) for EVERY action sequence, every "
+                  "number of ports and every interference by other sockets: inv_run (is_running <=> every configured port is held; not "
+                  "running => none is held), stop_silences (after stop no broadcast is delivered, whatever follows until the next start), "
+                  "stop_releases, failed_start_clean (a failed start changes nothing and leaves no port held), start_fails_iff, "
+                  "stop_idempotent, restartable. What a theorem cannot carry (that closing a transport releases the OS port and that a bound "
+                  "port receives datagrams) is observed by the correspondence on a REAL SwitcherBridge over loopback UDP after every action.",
+             note="Trusted: Lean kernel (propext, Classical.choice, Quot.sound); hand model of start/stop tied by correspondence only "
+                  "(no translator for this part); OS/asyncio socket behaviour observed, not proved.",
+             tech="Lean 4 proof (invariant by induction over action lists) + differential correspondence on real loopback sockets + Spec judge",
+             ref="§7 C17"),
+ "C18": dict(text="PARTIAL. Lean theorems about the TCP client's connection state machine for EVERY action sequence that does not connect "
+                  "while connected: connected_exactly (the `connected` flag is true exactly from a successful connect to the next "
+                  "disconnect/context exit), sockets_exactly (open sockets = 1 iff connected, else 0: nothing leaks, including after an "
+                  "operation that raises or a body exception inside `async with`), disconnect_closes, context_closes (normal and exceptional "
+                  "exit), disconnect_first/twice harmless, refused_connect leaves the client unconnected with no socket, reconnect works. "
+                  "That closing the writer makes the device see end-of-stream is observed by the correspondence against a scripted device on "
+                  "REAL loopback TCP (device-side open-connection count after every action), both API types.",
+             note="Trusted: Lean kernel (propext, Classical.choice, Quot.sound); hand model of connect/disconnect/__aenter__/__aexit__ tied "
+                  "by correspondence only; OS/asyncio stream behaviour observed, not proved. Connect-while-connected is outside the property.",
+             tech="Lean 4 proof (invariant by induction over action lists) + differential correspondence on real loopback TCP + Spec judge",
+             ref="§7 C18"),
 }
 NOT_YET = "check not built yet in this revision (work in progress; see DESIGN.md Appendix B)"
 m = {
